@@ -291,6 +291,17 @@ func awsChunked(payload []byte, sizes []int, lie string) []byte {
 			// land after payload bytes too, second chunk)
 			m, _ := strconv.Atoi(lie[3:])
 			fmt.Fprintf(&b, "%x;chunk-signature=%s\r\n", n, strings.Repeat("ab", m)[:m])
+		case strings.HasPrefix(lie, "hugehex") && first:
+			// a chunk size of 2^64+n (wraps to n in a 64-bit accumulator); with
+			// "-empty" a size of 2^64 exactly, followed by nothing of that chunk
+			if lie == "hugehex-empty" {
+				fmt.Fprintf(&b, "10000000000000000;chunk-signature=%s\r\n\r\n", chunkSig)
+				first = false
+				i--
+				continue
+			} else {
+				fmt.Fprintf(&b, "1%016x;chunk-signature=%s\r\n", n, chunkSig)
+			}
 		case lie == "upperhex":
 			// not a lie: hex digits are case-insensitive, and some clients write them in upper case
 			fmt.Fprintf(&b, "%X;chunk-signature=%s\r\n", n, chunkSig)
@@ -311,6 +322,12 @@ func awsChunked(payload []byte, sizes []int, lie string) []byte {
 	}
 	if lie != "nofinal" {
 		fmt.Fprintf(&b, "0;chunk-signature=%s\r\n\r\n", chunkSig)
+	}
+	switch lie {
+	case "afterfinal": // a second, well-formed stream behind the final chunk
+		fmt.Fprintf(&b, "5;chunk-signature=%s\r\nEXTRA\r\n0;chunk-signature=%s\r\n\r\n", chunkSig, chunkSig)
+	case "afterfinal-garbage":
+		b.WriteString("garbage behind the final chunk")
 	}
 	out := b.Bytes()
 	if lie == "trunc" && len(out) > 3 {
